@@ -376,6 +376,14 @@ impl Compiler {
             ObjectPropertyKey::String(s) => Some(s.value.cheap_clone()),
             _ => None,
         };
+        // A computed key is evaluated before the value
+        let computed_key_reg = if let ObjectPropertyKey::Computed(expr) = &prop.key {
+            let key_reg = self.builder.alloc_register()?;
+            self.compile_expression(expr, key_reg)?;
+            Some(key_reg)
+        } else {
+            None
+        };
         self.compile_expression_with_inferred_name(&prop.value, value_reg, inferred_name)?;
 
         // Set the property based on key type
@@ -407,15 +415,15 @@ impl Compiler {
                 });
                 self.builder.free_register(key_reg);
             }
-            ObjectPropertyKey::Computed(expr) => {
-                let key_reg = self.builder.alloc_register()?;
-                self.compile_expression(expr, key_reg)?;
-                self.builder.emit(Op::SetProperty {
-                    obj,
-                    key: key_reg,
-                    value: value_reg,
-                });
-                self.builder.free_register(key_reg);
+            ObjectPropertyKey::Computed(_) => {
+                if let Some(key_reg) = computed_key_reg {
+                    self.builder.emit(Op::SetProperty {
+                        obj,
+                        key: key_reg,
+                        value: value_reg,
+                    });
+                    self.builder.free_register(key_reg);
+                }
             }
             ObjectPropertyKey::PrivateIdentifier(_) => {
                 // Private fields handled separately
